@@ -366,7 +366,8 @@ def run(ck, facts):
     # ---------------- R7/R8: clauses shared with C11 and C16 (enum values and NULL+0 slices are part of what C sees)
     import c11
     import c16
-    c11.run(C.SubCheck(ck, "R7", "enum values seen by C are rustc's: discriminant inference, HIR copy and the C/C++ enum templates (rules of C11)", {"R3", "R4"}), facts)
+    c11.run(C.SubCheck(ck, "R7", "enum values seen by C are rustc's: discriminant inference, HIR copy and the C/C++ enum templates (rules of C11)", {"R3", "R4"}, key_re=r"^(?!.*dart::)"), facts)
+    c11.run(C.SubCheck(ck, "R7", "", {"R1"}, key_re=r"^c/|^cpp/"), facts)
     c16.run(C.SubCheck(ck, "R8", "slices and strings cross unchanged, NULL+0 is the empty slice: raw-parts reconstruction rules of the runtime views (rules of C16)", {"R1", "R2"}), facts)
 
 
